@@ -4,6 +4,7 @@ The statements quantify over every start cursor, every end cursor and every post
 that covers all commands, including ones that fail or overshoot, without modelling any of them.
 -/
 import Vicut.Model.Field
+import Vicut.Model.Block
 
 namespace Vicut.C01
 open Vicut
@@ -120,3 +121,87 @@ example : fieldOf [['h'], ['é'], ['l'], ['l'], ['o']] 3 1 none none = .ok ['é'
 example : fieldOf [['a'], ['b']] 0 99 none none = .ok ['a', 'b'] := by rfl
 
 end Vicut.C01
+
+/-! ## Visual-block selections: the windows of `get_block_select_windows` (model `Vicut.Model.Block`) -/
+namespace Vicut.C01Block
+open Vicut Vicut.Block
+
+theorem ordered_fst (a b : Nat) : (ordered a b).1 = min a b := by unfold ordered; split <;> simp <;> omega
+theorem ordered_snd (a b : Nat) : (ordered a b).2 = max a b := by unfold ordered; split <;> simp <;> omega
+
+/-- the last position a row may reach -/
+def cap (gs : List Gr) (b : Nat × Nat) : Nat := if b.2 > b.1 && isNlAtGs gs (b.2 - 1) then b.2 - 1 else b.2
+
+theorem row_fst (gs : List Gr) (ac cc : Nat) (b : Nat × Nat) :
+    (row gs ac cc b).1 = min (min (b.1 + ac) (cap gs b)) (min (b.1 + cc) (cap gs b)) := by
+  unfold row cap; exact ordered_fst _ _
+theorem row_snd (gs : List Gr) (ac cc : Nat) (b : Nat × Nat) :
+    (row gs ac cc b).2 = max (min (b.1 + ac) (cap gs b)) (min (b.1 + cc) (cap gs b)) := by
+  unfold row cap; exact ordered_snd _ _
+
+/-- a row's left edge is not right of its right edge -/
+theorem row_ordered (gs : List Gr) (ac cc : Nat) (b : Nat × Nat) : (row gs ac cc b).1 ≤ (row gs ac cc b).2 := by
+  rw [row_fst, row_snd]; omega
+
+/-- a row is at most as wide as the rectangle -/
+theorem row_width (gs : List Gr) (ac cc : Nat) (b : Nat × Nat) :
+    (row gs ac cc b).2 - (row gs ac cc b).1 ≤ max ac cc - min ac cc := by
+  rw [row_fst, row_snd]; omega
+
+theorem cap_bounds (gs : List Gr) (b : Nat × Nat) (hb : b.1 ≤ b.2) : b.1 ≤ cap gs b ∧ cap gs b ≤ b.2 := by
+  unfold cap; split
+  · rename_i h; simp at h; omega
+  · omega
+
+/-- a row lies inside its line -/
+theorem row_within (gs : List Gr) (ac cc : Nat) (b : Nat × Nat) (hb : b.1 ≤ b.2) :
+    b.1 ≤ (row gs ac cc b).1 ∧ (row gs ac cc b).2 ≤ b.2 := by
+  have := cap_bounds gs b hb
+  rw [row_fst, row_snd]; omega
+
+/-- **a row never takes its line's terminator** -/
+theorem row_excludes_terminator (gs : List Gr) (ac cc : Nat) (b : Nat × Nat)
+    (hb : b.1 < b.2) (hnl : isNlAtGs gs (b.2 - 1) = true) : (row gs ac cc b).2 ≤ b.2 - 1 := by
+  have hc : cap gs b = b.2 - 1 := by
+    unfold cap
+    have : (decide (b.2 > b.1) && isNlAtGs gs (b.2 - 1)) = true := by simp [hnl, hb]
+    simp [this]
+  rw [row_snd, hc]; omega
+
+/-- every window of a block selection is the row of one of its lines: one window per line between the
+anchor's and the cursor's, in order -/
+theorem windows_are_rows (gs : List Gr) (anchor cur : Nat) (ws : List (Nat × Nat)) (h : windows gs anchor cur = some ws) :
+    ∃ ac cc, ∀ w ∈ ws, ∃ ln b, lineBounds gs ln = some b ∧ w = row gs ac cc b ∧
+      min (cursorLine ⟨gs, cur, false⟩) (indexLine gs anchor) ≤ ln ∧ ln ≤ max (cursorLine ⟨gs, cur, false⟩) (indexLine gs anchor) := by
+  unfold windows at h
+  split at h
+  · rename_i cc0 ac0 _ _
+    simp only [Option.some.injEq] at h
+    refine ⟨if cc0 ≥ ac0 then ac0 else ac0 + 1, if cc0 ≥ ac0 then cc0 + 1 else cc0, ?_⟩
+    intro w hw
+    rw [← h] at hw
+    simp only [List.mem_filterMap, Option.map_eq_some_iff] at hw
+    obtain ⟨ln, hln, b, hb, rfl⟩ := hw
+    simp [List.mem_range'] at hln
+    exact ⟨ln, b, hb, rfl, by omega, by omega⟩
+  · cases h
+
+/-- … so every window is ordered and no wider than the rectangle -/
+theorem windows_ordered (gs : List Gr) (anchor cur : Nat) (ws : List (Nat × Nat)) (h : windows gs anchor cur = some ws) :
+    ∀ w ∈ ws, w.1 ≤ w.2 := by
+  obtain ⟨ac, cc, hr⟩ := windows_are_rows gs anchor cur ws h
+  intro w hw
+  obtain ⟨_, b, _, rfl, _⟩ := hr w hw
+  exact row_ordered gs ac cc b
+
+/-- `abcd` / `wxyz` unterminated: the block from `a` to `z` takes both lines whole (the last character of
+the unterminated last line included) -/
+example : windows ("abcd\nwxyz".toList.map (fun c => [c])) 0 8 = some [(0, 4), (5, 9)] := by decide
+/-- terminated: the same, and the final newline stays out -/
+example : windows ("abcd\nwxyz\n".toList.map (fun c => [c])) 0 8 = some [(0, 4), (5, 9)] := by decide
+/-- a corner on a terminator keeps its column (before fix 673f6a4 this was `[(0, 0)]`) -/
+example : windows ("q\n42\n".toList.map (fun c => [c])) 0 1 = some [(0, 1)] := by decide
+/-- short lines in between give short or empty rows -/
+example : windows ("abc\n\nxyz\n".toList.map (fun c => [c])) 1 7 = some [(1, 3), (4, 4), (6, 8)] := by decide
+
+end Vicut.C01Block
